@@ -191,3 +191,37 @@ PROPS['C08'] = dict(
     level_text='generated matrices per class against residual bounds from the standard error analysis with a fixed safety factor 4; sampling, not proof; errors below the bound are invisible',
     level_note='trusts long double (64-bit mantissa) residual evaluation: its own error is 2^11 below the bound; orders <= 32',
 )
+
+PROPS['C17'] = dict(
+    level='exploration',
+    rule='choice tape -> CRC case (width 8/16/32/64, bit order, polynomial from published ones or arbitrary incl. top bit set, arbitrary initial value, message of 0..300 arbitrary bytes, two split points) or hash case '
+         '(bkdr/sdbm, initial value, message, split point). CRC oracle: all 256 table entries and the value equal bit-by-bit polynomial division in the same bit order (reference written from the definition, own bit '
+         'reflection), three-piece feeding with carried value = one shot, and the opposite bit order on bit-reflected data/value gives the bit-reflected result. Hash oracle: multiply-add definition in 32-bit arithmetic, '
+         'hash(ab,v) = hash(b, hash(a,v)), NUL-terminated form = length form on the prefix before the first NUL, mixed feeding. Messages live in exact-size heap blocks (ASan). non-trivial = message >= 2 bytes containing '
+         'a byte outside 0x30-0x39 and a non-zero initial value; distinct = hash of (kind, width, order, polynomial, initial value, message)',
+    assumptions=COMMON_ASSUME + ['reference: bitwise shift/xor division and bit-loop reflection in exec/C17.cc, independent of liba helpers'],
+    units=lambda tier, seed: [Unit('crc_hash', 'exec/C17.cc', ['crc.c', 'hash.c'], tape_len=360)],
+    plan={'quick': dict(rc_procs=10, rc_cases=15000, fuzz_procs=6, fuzz_secs=20),
+          'thorough': dict(rc_procs=8, rc_cases=200000, fuzz_procs=8, fuzz_secs=240)},
+    technique='property-based differential testing against a bit-by-bit reference plus metamorphic relations (reflection, concatenation); rapidcheck tapes + libFuzzer under ASan',
+    level_text='generated polynomials, initial values, messages and split points against the defining bitwise division; sampling, not proof',
+    level_note='trusts the bitwise reference in exec/C17.cc; messages <= 300 bytes',
+)
+PROPS['C18'] = dict(
+    level='exploration',
+    rule='(a) enumeration of code points (thorough: every value in [1,2^31); quick: every value below 2^21, +-4096 around each length boundary, stride 7919 over the rest): a_utf_encode length = UTF-8 table, bytes = '
+         'reference encoder written from the bit layout, decode(encode(c)) = (same length, c) with and without value output, every proper prefix fails; encode/decode buffers end flush against a PROT_NONE page. '
+         '(b) choice tapes: code points near boundaries, arbitrary byte strings of 0..16 bytes (lead/continuation/NUL dictionary) with an independently chosen stated length in an exact-size heap block (ASan): result <= stated '
+         'length and <= 6, equal with and without value output, r >= 2 only if the lead announces r and bytes 1..r-1 are continuation bytes and the value equals the bit layout, r = 1 only for a non-NUL byte below 0xC0, '
+         'complete well-formed sequences are not rejected; a_utf_length = number / total length of successive successful decodes; well-formed strings: both counters = number of code points. '
+         'non-trivial = multi-byte code point or input starting with a byte >= 0x80; distinct = code points (enumerated, distinct by construction) + hash of decoded tape cases',
+    assumptions=COMMON_ASSUME + ['a stray continuation byte decoding as a 1-byte character is not judged: the statement only constrains multi-byte acceptance',
+                                 'a_utf_length_ (unchecked counter) is only required to be memory-safe on arbitrary input and exact on well-formed input'],
+    units=lambda tier, seed: [Unit('utf8', 'exec/C18.cc', ['utf.c'], tape_len=64, enum=True)],
+    plan={'quick': dict(rc_procs=6, rc_cases=60000, fuzz_procs=4, fuzz_secs=20, enum_shards=6, enum_tier=0),
+          'thorough': dict(rc_procs=6, rc_cases=600000, fuzz_procs=6, fuzz_secs=180, enum_shards=16, enum_tier=1)},
+    has_enum=True, exhaustive_when_enum=False,
+    technique='exhaustive enumeration of code points (round trip vs a reference encoder, prefix rejection, guard page) + property-based testing/fuzzing of arbitrary byte strings with a validity predicate under ASan',
+    level_text='thorough tier enumerates all 2^31-1 code points; arbitrary byte input is sampled by rapidcheck and libFuzzer with the decoder validity predicate inside the target',
+    level_note='trusts the reference encoder in exec/C18.cc; byte strings <= 16 bytes',
+)
